@@ -178,7 +178,7 @@ pub fn random_lt_spec(rng: &mut impl Rng, code: u16) -> Value {
     let mut r = |n: u32| rng.random_range(0..n);
     let _ = code;
     let algs = pickw(&mut r, &[(30, "none"), (15, "md5"), (15, "sha"), (15, "md5_sha"), (10, "sha_md5"), (5, "unsup"), (10, "unsup_md5")]);
-    let nonce = pickw(&mut r, &[(35, "fresh"), (50, "fresh_cookie"), (7, "same"), (8, "absent")]);
+    let nonce = pickw(&mut r, &[(33, "fresh"), (48, "fresh_cookie"), (7, "same"), (8, "absent"), (4, "odd_cookie")]);
     let realm = pickw(&mut r, &[(84, "ok"), (8, "absent"), (8, "other")]);
     // the cookie's password-algorithms bit normally agrees with the presence of the list
     let pa = if r(100) < 88 { algs != "none" } else { algs == "none" };
@@ -271,6 +271,9 @@ impl LtServer {
                     }
                     Some(format!("{}{}c{}", COOKIE_PREFIX, b64_3(f), self.counter))
                 }
+                // the cookie prefix followed by four characters that are valid, canonically PADDED base64
+                // (they decode to one or two bytes, not the three a feature set needs) or not base64 at all
+                "odd_cookie" => Some(format!("{}{}n{}", COOKIE_PREFIX, ["AA==", "AAA=", "gA==", "wAA=", "====", "A=A=", "-_-_"][self.counter as usize % 7], self.counter)),
                 "same" if !self.last_nonce.is_empty() => Some(self.last_nonce.clone()),
                 "same" => Some("n0-same".to_string()),
                 _ => None,
